@@ -1160,6 +1160,35 @@ pub fn generate(seed: u64, focus: Focus, faults: bool) -> RunDesc {
             };
             let clean_copy = ops[i].clone();
             poison_op(&mut fault_rng, &mut ops[i], kind);
+            // sometimes the batch that is going to fail also RE-DEFINES a name that
+            // an earlier successful call established (with a different schema): a
+            // failed call must not damage what earlier calls returned
+            let earlier: Vec<String> = {
+                let mut v: Vec<String> = Vec::new();
+                for op in &ops[..i] {
+                    v.extend(def_names_of(op));
+                    if let Op::AddType { hint: Some(h), .. } = op {
+                        v.push(h.clone());
+                    }
+                }
+                v.sort();
+                v.dedup();
+                v
+            };
+            if !earlier.is_empty() && fault_rng.chance(1, 3) {
+                let name = fault_rng.pick(&earlier).clone();
+                let redefinition = json!({"type": "string", "enum": ["zz-redefined", "yy-redefined"]});
+                match &mut ops[i] {
+                    Op::AddRefTypes { defs, .. } => {
+                        let at = fault_rng.below(defs.len() + 1);
+                        defs.insert(at, (name, redefinition));
+                    }
+                    Op::AddRootSchema { doc, .. } => {
+                        doc["definitions"][name] = redefinition;
+                    }
+                    _ => {}
+                }
+            }
             // the client's retry: the same call without the offending part,
             // somewhere later in the history (often right away)
             if fault_rng.chance(2, 3) && !matches!(clean_copy, Op::AddType { .. }) {
